@@ -539,3 +539,54 @@ def emitted_leg(ck):
         else:
             ck.cov['traces_validated_against_impl'] += len(sends)
     ck.notes.append('packets emitted during full audits of the three archetype servers were decoded by the independent decoder')
+    # connections that follow one another on the same socket object: whatever the previous connection left behind - bytes the peer
+    # sent that were never read (SSH_MSG_NEWKEYS right behind the key-exchange reply, as OpenSSH sends it), a message the tool began
+    # to write and abandoned (a degenerate group: no exponent exists) - the next connection starts clean: its first packet is the
+    # KEXINIT, every packet is well-framed, and what it reads is what that connection's peer sent
+    from harness import wire as _wire
+    scs, meta = [], []
+    for name, cfg in c09.archetypes().items():
+        clean = c09.scenario(cfg, skip_rate=True)
+        c1 = peers.ServerCfg(cfg)
+        # (in the same segment as the reply, so that the tool's receive buffer holds it when the connection is closed)
+        c1['mutate'] = lambda n, kind, idx, data: [data + _wire.frame(bytes([21]))] if kind in ('kexreply', 'gexreply') else [data]
+        scs += [clean, c09.scenario(c1, skip_rate=True)]
+        meta += [(name, 'clean'), (name, 'newkeys-behind-reply')]
+        if cfg.get('gex'):
+            for k in (1, 2, 3, 5, 8):
+                for pval in (1, 5):
+                    c2 = peers.ServerCfg(cfg)
+                    state = {'n': 0}
+
+                    def mutate(n, kind, idx, data, k=k, pval=pval, state=state):
+                        if kind == 'gexgroup':
+                            state['n'] += 1
+                            if state['n'] == k:
+                                return [_wire.frame(bytes([31]) + _wire.mpint(pval) + _wire.mpint(2))]
+                        return [data]
+                    c2['mutate'] = mutate
+                    scs.append(c09.scenario(c2, skip_rate=True))
+                    meta.append((name, 'degenerate-group p=%d at #%d' % (pval, k)))
+    results = runner.run_many(scs)
+    clean_out = {}
+    for (name, what), r in zip(meta, results):
+        if what == 'clean':
+            clean_out[name] = r
+    for (name, what), sc, r in zip(meta, scs, results):
+        ck.evaluated()
+        replay = {'archetype': name, 'variant': what, 'argv': sc['argv'], 'exit': r.get('exit'), 'stdout': (r.get('stdout') or '')[-2500:]}
+        if r.get('harness_error') or r.get('hang'):
+            ck.violation('run-did-not-complete variant=%s' % what.split(' ')[0], '%s, %s: the audit did not complete' % (name, what), replay)
+            continue
+        bad = [e for e in r['events'] if e.get('ev') in ('framing_violation', 'srv_decode_error', 'protocol_violation')]
+        sends = [e for e in r['events'] if e.get('ev') == 'send']
+        if bad:
+            replay['events'] = bad[:4]
+            ck.violation('connection-does-not-start-clean variant=%s' % what.split(' ')[0], '%s, %s: %s' % (name, what, bad[0].get('what') or bad[0]), replay)
+        elif any(e.get('bad') or e.get('trailing') for e in sends):
+            ck.violation('emitted-kexinit-malformed variant=%s' % what.split(' ')[0], '%s, %s: a KEXINIT does not decode cleanly' % (name, what), replay)
+        elif what == 'newkeys-behind-reply' and r['stdout'] != clean_out[name]['stdout']:
+            ck.violation('unread-bytes-carried-over', '%s: with SSH_MSG_NEWKEYS sent behind every key-exchange reply the report differs from the report without' % name, replay)
+        else:
+            ck.cov['traces_validated_against_impl'] += len(sends)
+            ck.nontrivial(('clean-start', name, what))
